@@ -90,9 +90,11 @@ def bad_default(c, tgt):
 def accept(c, tgt):
     if bad_ignore(c, tgt):
         return False
+    if bad_reverse(c, tgt):
+        return False          # "`partial_ord(reverse)` when `Ord` is derived" is refused as such, also on a field Ord ignores
     if ign(c, tgt):
         return True
-    return not bad_default(c, tgt) and not bad_reverse(c, tgt)
+    return not bad_default(c, tgt)
 
 
 def parsed_attrs(derived):
